@@ -343,6 +343,8 @@ func (cd *cmdDispatcher) prepare(cs *clientState, input respValue) (ctx *cmdCont
 
 		text := respErrorString(fmt.Sprintf("ERR Unknown command `%s`, with args beginning with: %s", cmdNameArg, joinedArgs))
 		response = text
+		// a command rejected while queueing makes EXEC discard the transaction
+		cs.queueError = cs.cmdQueue != nil
 		return
 	}
 
@@ -379,6 +381,7 @@ func (cd *cmdDispatcher) prepare(cs *clientState, input respValue) (ctx *cmdCont
 			text = respErrorString(fmt.Sprintf("ERR unknown subcommand '%s'. Try CLIENT HELP.", cmdToken))
 		}
 		response = text
+		cs.queueError = cs.cmdQueue != nil
 		return
 	}
 
